@@ -2677,6 +2677,23 @@ class QuaternionArray(np.ndarray):
         Q[:, 3] = sy*cp*cr - cy*sp*sr
         return Q/np.linalg.norm(Q, axis=1)[:, None]
 
+    def from_angles(self, Angles: np.ndarray) -> np.ndarray:
+        """
+        Synonym to method from_rpy()
+
+        Parameters
+        ----------
+        Angles : numpy.ndarray
+            N-by-3 cardanian angles, in radians, following the order: roll -> pitch -> yaw.
+
+        Returns
+        -------
+        Q : numpy.ndarray
+            Quaternion Array from roll-pitch-yaw angles.
+
+        """
+        return QuaternionArray.from_rpy(self, Angles)
+
     def from_DCM(self, DCM: np.ndarray, method: str='shepperd', inplace: bool = True, **kw) -> np.ndarray:
         """
         Quaternion from Direction Cosine Matrix.
